@@ -31,6 +31,8 @@ import (
 	"google.golang.org/protobuf/proto"
 	"google.golang.org/protobuf/reflect/protoreflect"
 	"google.golang.org/protobuf/reflect/protoregistry"
+	"google.golang.org/protobuf/types/descriptorpb"
+	"google.golang.org/protobuf/types/dynamicpb"
 )
 
 func runC38(c *C) {
@@ -248,10 +250,7 @@ func featCase(c *C, a *AFile) {
 		}
 		chk(c, implGo(got) == want, fmt.Sprintf("%s: %s-built EditionFeatures %q differ from nearest-override-else-default %q (chain %s)", what, builder, implGo(got), want, chainToken(ch)), in, sig)
 		if c.HasModel() && packed == 0 {
-			mch := ch
-			if builder == "filedesc" && what == "enum" {
-				mch = ch[:len(ch)-1] // (*Enum).unmarshalSeed copies the parent's features and never reads the enum's own
-			}
+			mch := ch // (since e5f41ee filedesc merges the enum's own features too: the model's chain is the full chain)
 			ans := c.Ask("resolve %d %s", ed, chainToken(mch))
 			// "spec … | protodesc … | filedesc …"
 			parts := strings.Split(ans, " | ")
@@ -331,7 +330,18 @@ func featCase(c *C, a *AFile) {
 				if af.Packed != 0 {
 					packed = fmt.Sprint(af.Packed - 1)
 				}
-				utf8 := strs.EnforceUTF8(b.fd) // what the codecs ask
+				// what the codecs ask: message fields as they are, extensions through an ExtensionTypeDescriptor wrapper
+				codecFD := b.fd
+				if xd, ok := b.fd.(protoreflect.ExtensionDescriptor); ok && isExt {
+					codecFD = dynamicpb.NewExtensionType(xd).TypeDescriptor()
+					if m, ok := b.fd.(interface{ EnforceUTF8() bool }); ok && b.fd.Kind() == protoreflect.StringKind {
+						r, _ := resolve(ch)
+						chk(c, m.EnforceUTF8() == (r.UTF8 == 2), fmt.Sprintf("extension %s: (*filedesc.Extension).EnforceUTF8() = %v but the resolved utf8_validation is %d", b.fd.FullName(), m.EnforceUTF8(), r.UTF8), in, "")
+					} else if !ok {
+						chk(c, false, "*filedesc.Extension has no EnforceUTF8 method (regression of c1ca555)", in, "")
+					}
+				}
+				utf8 := strs.EnforceUTF8(codecFD)
 				if b.fd.Kind() == protoreflect.StringKind {
 					r, _ := resolve(ch)
 					sig := ""
@@ -480,15 +490,39 @@ func featWitnesses(c *C) {
 		Enums: []*AEnum{{Name: "F", Values: []*AEnumValue{{Name: "F_V0", Number: 1, HasNumber: true}}}},
 	}
 	featCase(c, a)
-	// behavioural witness of the refuted obligation C38.runtime_utf8: invalid UTF-8 in a string EXTENSION of an editions
-	// file (utf8_validation = VERIFY by default) vs in a string FIELD with the same number
-	bad := []byte{0x72, 0x02, 0xff, 0xfe} // field 14, "\xff\xfe"
-	in := replayIn{Kind: "pair", Msg: "utf8-extension", Wire: vhHex(bad)}
+	utf8Witness(c)
+}
+
+// utf8Witness: behavioural witness of the refuted obligation C38.runtime_utf8 — invalid UTF-8 in a string EXTENSION of an
+// editions file whose resolved utf8_validation is VERIFY, against the same bytes in a string FIELD; plus the negative
+// control testeditions.TestAllExtensions (test_extension.proto sets utf8_validation = NONE: accepting is correct there).
+func utf8Witness(c *C) {
+	p := &descriptorpb.FileDescriptorProto{Name: proto.String("w/utf8ext.proto"), Package: proto.String("w"), Syntax: proto.String("editions"), Edition: descriptorpb.Edition_EDITION_2023.Enum(),
+		MessageType: []*descriptorpb.DescriptorProto{{Name: proto.String("M"), ExtensionRange: []*descriptorpb.DescriptorProto_ExtensionRange{{Start: proto.Int32(10), End: proto.Int32(20)}},
+			Field: []*descriptorpb.FieldDescriptorProto{fld("f", 1, lOpt, tStr, "")}}},
+		Extension: []*descriptorpb.FieldDescriptorProto{func() *descriptorpb.FieldDescriptorProto {
+			x := fld("x", 14, lOpt, tStr, "")
+			x.Extendee = proto.String(".w.M")
+			return x
+		}()}}
+	in := replayIn{Kind: "fdp", FDP: hexOf(p), Note: "witness:utf8-extension", Wire: "7202fffe"}
+	defer c.Recover("C38 utf8 witness", in, "")
 	c.Case("utf8-extension-witness", true)
-	errField := proto.Unmarshal(bad, &testeditionspb.TestAllTypes{})
-	chk(c, errField != nil, "invalid UTF-8 accepted in the editions string FIELD testeditions.TestAllTypes.optional_string", in, "")
-	errExt := proto.Unmarshal(bad, &testeditionspb.TestAllExtensions{})
-	chk(c, errExt != nil, "invalid UTF-8 accepted in the editions string EXTENSION testeditions.optional_string (bytes 7202fffe): proto.Unmarshal returns nil", in, sigExtUTF8)
+	fd, err, pn := newFile(p, depResolver{&protoregistry.Files{}}, false)
+	if !chk(c, err == nil && pn == nil, "utf8 witness schema rejected: "+errClass(err, pn), in, "") {
+		return
+	}
+	xt := dynamicpb.NewExtensionType(fd.Extensions().Get(0))
+	types := &protoregistry.Types{}
+	types.RegisterExtension(xt)
+	uo := proto.UnmarshalOptions{Resolver: types}
+	errField := uo.Unmarshal([]byte{0x0a, 0x02, 0xff, 0xfe}, dynamicpb.NewMessage(fd.Messages().Get(0)))
+	chk(c, errField != nil, "invalid UTF-8 accepted in an editions (VERIFY) string FIELD", in, "")
+	errExt := uo.Unmarshal([]byte{0x72, 0x02, 0xff, 0xfe}, dynamicpb.NewMessage(fd.Messages().Get(0)))
+	chk(c, errExt != nil, "invalid UTF-8 accepted in an editions (VERIFY) string EXTENSION: proto.Unmarshal(7202fffe) returns nil (extend M { string x = 14; })", in, sigExtUTF8)
+	// negative control: utf8_validation = NONE at file level
+	errNone := proto.Unmarshal([]byte{0x72, 0x02, 0xff, 0xfe}, &testeditionspb.TestAllExtensions{})
+	chk(c, errNone == nil, "invalid UTF-8 REJECTED in testeditions.optional_string although test_extension.proto sets utf8_validation = NONE", in, "")
 }
 
 // ---------- stream B: proto2/proto3 vs editions pairs ----------
